@@ -9,6 +9,7 @@ package c13
 
 import (
 	"bytes"
+	"encoding/base64"
 	"encoding/json"
 	"fmt"
 	"os"
@@ -45,6 +46,20 @@ type modInfo struct {
 	L          layout
 	Trace      string
 	Want       string // sha of Trace
+}
+
+// blob: self-contained reproducer material for small modules.
+func (m *modInfo) blob() map[string]any {
+	out := map[string]any{"cache_file": m.Sub + "/" + m.Key}
+	if w, err := os.ReadFile(m.Wasm); err == nil && len(w) <= 8192 {
+		out["wasm_base64"] = base64.StdEncoding.EncodeToString(w)
+	} else {
+		out["wasm"] = "see props/c13/modules.go: " + m.Name
+	}
+	if len(m.Entry) <= 4096 {
+		out["complete_entry_base64"] = base64.StdEncoding.EncodeToString(m.Entry)
+	}
+	return out
 }
 
 type driver struct {
@@ -116,16 +131,37 @@ func run(c *core.Ctx) int {
 		return finishBroken(c, d, "fewer than 10 usable modules")
 	}
 	c.Extra("phase_ref_s", time.Since(c.Start).Seconds())
-	d.phaseCrash()
+	// development knob: C13_ONLY=crash,trunc,... runs a subset (the run is then reported as broken/inconclusive)
+	only := os.Getenv("C13_ONLY")
+	want := func(p string) bool {
+		if only == "" || strings.Contains(","+only+",", ","+p+",") {
+			return true
+		}
+		c.Inconclusive("phase-skipped:" + p)
+		return false
+	}
+	if want("crash") {
+		d.phaseCrash()
+	}
 	c.Extra("phase_crash_s", time.Since(c.Start).Seconds())
-	d.phaseTrunc()
+	if want("trunc") {
+		d.phaseTrunc()
+	}
 	c.Extra("phase_trunc_s", time.Since(c.Start).Seconds())
-	d.phaseSkew()
+	if want("skew") {
+		d.phaseSkew()
+	}
 	c.Extra("phase_skew_s", time.Since(c.Start).Seconds())
-	d.phaseOrder()
-	d.phaseConc()
+	if want("order") {
+		d.phaseOrder()
+	}
+	if want("conc") {
+		d.phaseConc()
+	}
 	c.Extra("phase_determinism_s", time.Since(c.Start).Seconds())
-	d.phaseCorrupt()
+	if want("corrupt") {
+		d.phaseCorrupt()
+	}
 	c.Extra("phase_corrupt_s", time.Since(c.Start).Seconds())
 
 	broken := ""
@@ -275,7 +311,7 @@ func (d *driver) decideUse(e useExpect, job useJob, r core.CaseResult) string {
 	c := d.c
 	m := e.mod
 	wit := func(extra map[string]any) map[string]any {
-		w := map[string]any{"module": m.Name, "fault": e.kind, "param": e.param, "job": job, "entry_len": len(m.Entry),
+		w := map[string]any{"module": m.Name, "fault": e.kind, "param": e.param, "job": job, "entry_len": len(m.Entry), "module_and_entry": m.blob(),
 			"replay": "write the module (harness props/c13/modules.go, name above) to a file, prepare the cache directory as in job.prep / job.tag, then CompileModule+instantiate+call exports with wazero.NewCompilationCacheWithDir(dir)"}
 		for k, v := range extra {
 			w[k] = v
@@ -429,7 +465,7 @@ func (d *driver) ksFor(m *modInfo, full bool, idx int) (ks []int, exhaustive boo
 	addk(1)
 	addk(n - 1)
 	if full {
-		limit := d.c.N(0, 3000)
+		limit := d.c.N(0, 1500)
 		if n <= limit {
 			for k := 0; k < n; k++ {
 				addk(k)
@@ -577,7 +613,7 @@ func (d *driver) phaseCrash() {
 					b, _ := os.ReadFile(filepath.Join(sub, name))
 					c.Violate("crash:final-name-holds-incomplete-entry:"+cc.point,
 						fmt.Sprintf("module %s: after the writer died at %s the file under the final name has %d bytes (complete entry: %d; prefix of it: %v)", m.Name, tag, fi.Len, len(m.Entry), bytes.HasPrefix(m.Entry, b)),
-						map[string]any{"module": m.Name, "point": tag, "files": files, "complete_len": len(m.Entry), "complete_sha": m.EntrySha,
+						map[string]any{"module": m.Name, "point": tag, "files": files, "complete_len": len(m.Entry), "complete_sha": m.EntrySha, "module_and_entry": m.blob(),
 							"replay": "compile module with NewCompilationCacheWithDir, SIGKILL the process at the named verifhook point, list the directory"})
 				}
 			default:
@@ -634,7 +670,7 @@ func (d *driver) phaseCrash() {
 
 func (d *driver) truncLens(m *modInfo) (ts []int, exhaustive bool) {
 	n := len(m.Entry)
-	limit := d.c.N(1200, 400000)
+	limit := d.c.N(1200, 120000)
 	if n <= limit {
 		for t := 0; t < n; t++ {
 			ts = append(ts, t)
@@ -1003,7 +1039,7 @@ func (d *driver) phaseOrder() {
 func (d *driver) phaseConc() {
 	c := d.c
 	const writers = 8
-	rounds := c.N(25, 200)
+	rounds := c.N(15, 120)
 	// modules: the largest entries give the widest windows
 	cands := append([]*modInfo(nil), d.mods...)
 	sort.Slice(cands, func(i, j int) bool { return len(cands[i].Entry) > len(cands[j].Entry) })
@@ -1036,7 +1072,7 @@ func (d *driver) phaseConc() {
 			cases = append(cases, core.J(concJob{Role: "writer", ID: w, N: writers + 1, Mod: m.Name, Wasm: m.Wasm, Dirs: dirs, Barrier: barrier, Sub: m.Sub, Key: m.Key, Ref: m.EntryPath, Want: m.Want}))
 		}
 		cases = append(cases, core.J(concJob{Role: "reader", ID: writers, N: writers + 1, Mod: m.Name, Wasm: m.Wasm, Dirs: dirs, Barrier: barrier, Sub: m.Sub, Key: m.Key, Ref: m.EntryPath, Want: m.Want}))
-		res := core.RunCases(c, "conc", cases, core.ChildOpts{Batch: 1, Par: writers + 1, TimeoutS: 900, Procs: 2})
+		res := core.RunCases(c, "conc", cases, core.ChildOpts{Batch: 1, Par: writers + 1, TimeoutS: 3600, Procs: 2})
 		complete := true
 		maxWriters := 0
 		for i, r := range res {
